@@ -66,54 +66,22 @@ Fixpoint guard_ok (fr : option Z) (budget : nat) (nr : Z) (ops : list op) (obs :
   | _, _ => true
   end.
 
-(* shipped modules: one next() per entry (plus what the environment fired at them).
-   The Stop paths of the actor and cluster modules carry preconditions (see Props). *)
-Definition caps_of (log : list ev) : list (Z * Z) :=
-  flat_map (fun x => match x with EEnter r i => [(r, i)] | _ => [] end) log.
-
-(* completions the environment delivered to module i of run r: Fire operations that did
-   something (a Fire naming a continuation that does not exist yet is a no-op) *)
-Fixpoint fires_to (ops : list op) (obs : list (list ev)) (caps : list (Z * Z)) (r i : Z) : nat :=
-  match ops, obs with
-  | OFire k _ :: ops', (_ :: _) :: obs' =>
-      let hit := if Z.ltb k 0 then false else
-                 match nth_error caps (Z.to_nat k) with
-                 | Some (r', i') => Z.eqb r r' && Z.eqb i i'
-                 | None => false
-                 end in
-      if hit then S (fires_to ops' obs' caps r i) else fires_to ops' obs' caps r i
-  | _ :: ops', _ :: obs' => fires_to ops' obs' caps r i
-  | _, _ => 0%nat
-  end.
-
-(* Stop of the actor and cluster modules is claimed under the App guard only (strict: App or
-   node mode, every run keeps the at-most-once hypothesis, at most one actor module - the
-   actor system lives in a package variable) *)
-Definition checked (strict fwd : bool) (k : kind) : bool :=
-  match k with KScript _ _ => false | KWelcome => true | KActor | KCluster => fwd || strict end.
-
-Fixpoint all_amo (log : list ev) (r : Z) (dirs : list bool) : bool :=
-  match dirs with
-  | [] => true
-  | _ :: ds => (match pending (proj r log) with Some _ => true | None => false end) && all_amo log (r + 1) ds
-  end.
-
-Definition n_actors (ms : list kind) : nat :=
-  length (filter (fun k => match k with KActor => true | _ => false end) ms).
-
-Fixpoint mods_ok (ops : list op) (obs : list (list ev)) (caps : list (Z * Z)) (strict fwd : bool) (r : Z) (t : list tev)
-         (i : Z) (ms : list kind) : bool :=
+(* shipped modules: Spec.shipped_calls_once, executable - every call (run r, module i) of a
+   shipped module reported exactly once (plus what the environment fired at it); the Stop
+   calls of the actor and cluster modules entered without their precondition are exempt
+   (Spec.unclaimed) *)
+Fixpoint mods_ok (ops : list op) (obs : list (list ev)) (un : list (Z * Z)) (r i : Z) (ms : list kind) : bool :=
   match ms with
   | [] => true
   | k :: ms' =>
-      (if checked strict fwd k then Nat.eqb (n_next i t) (n_enter i t + fires_to ops obs caps r i) else true)
-      && mods_ok ops obs caps strict fwd r t (i + 1) ms'
+      (if shipped k && negb (pair_mem r i un) then call_once_b ops obs r i else true)
+      && mods_ok ops obs un r (i + 1) ms'
   end.
 
-Fixpoint builtin_ok (ops : list op) (obs : list (list ev)) (strict : bool) (ms : list kind) (log : list ev) (r : Z) (dirs : list bool) : bool :=
+Fixpoint builtin_ok (ops : list op) (obs : list (list ev)) (un : list (Z * Z)) (ms : list kind) (r : Z) (dirs : list bool) : bool :=
   match dirs with
   | [] => true
-  | d :: ds => mods_ok ops obs (caps_of log) strict d r (proj r log) 0 ms && builtin_ok ops obs strict ms log (r + 1) ds
+  | _ :: ds => mods_ok ops obs un r 0 ms && builtin_ok ops obs un ms (r + 1) ds
   end.
 
 Definition monitor (c : case) : bool :=
@@ -125,8 +93,7 @@ Definition monitor (c : case) : bool :=
   && Nat.eqb (length obs) (length ops)
   && runs_ok (length (e_mods e)) log 0 dirs
   && (if is_app (e_mode e) then guard_ok None 0 0 ops obs else true)
-  && builtin_ok ops obs (is_app (e_mode e) && all_amo log 0 dirs && Nat.leb (n_actors (e_mods e)) 1)
-                (e_mods e) log 0 dirs.
+  && builtin_ok ops obs (unclaimed e dirs false [] log) (e_mods e) 0 dirs.
 
 Definition disagreeing (cs : list case) : list Z := failing agree cs.
 Definition monitor_failing (cs : list case) : list Z := failing monitor cs.
